@@ -1,7 +1,7 @@
 (* run_case: the single entry point of the extracted model.  One case term in, one observation
    term out; the same function is evaluated with vm_compute for the extraction cross-check. *)
 From Coq Require Import String.
-From AvroV Require Import Base Varint Schema Bytes Names Codec Conforms Layout Validate Rabin SingleObject Resolve Container Sink Settings Sexp.
+From AvroV Require Import Base Varint Schema Bytes Names Codec Conforms Layout Validate Rabin SingleObject Resolve Compat Resolution Container Sink Settings Sexp.
 Local Open Scope string_scope.
 
 Definition run_fuel : nat := 300.
@@ -242,6 +242,39 @@ Definition run_case (x : sexp) : sexp :=
           | _ => obs_err
           end
         | _, _, _ => obs_bad
+        end
+      | _ => obs_bad
+      end
+    else if op =? "read2" then
+      (* (read2 CFG W R VALUE) -> (ok RESOLVE SPEC CANREAD CANREAD-REV MUTUAL) *)
+      match args with
+      | [cx; wx; rx; vx] =>
+        match cfg_of cx, schema_of conv_fuel wx, schema_of conv_fuel rx, value_of conv_fuel vx with
+        | Some c, Some W, Some R, Some v =>
+          match resolved W, resolved R with
+          | Ok wn, Ok rn =>
+            let show_c (r : res compat) :=
+              match r with Ok CFull => Sym "full" | Ok CPartial => Sym "partial" | Err => Sym "incompatible"
+                         | Panic => Sym "panic" | OutOfFuel => Sym "out-of-fuel" end in
+            (* what the reader sees is the value decoded with the writer's schema *)
+            match (do bs <- write_value run_fuel (find_impl c run_fuel) true wn W v;
+                   decode run_fuel c wn None W bs) with
+            | Ok (dv, _) =>
+              L [Sym "ok";
+                 obs_of_res (fun x => [sexp_of_value x]) (resolve run_fuel c rn None R dv);
+                 match spec_read run_fuel wn rn None None W R dv with
+                 | Some x => L [Sym "some"; sexp_of_value x] | None => L [Sym "none"] end;
+                 show_c (can_read run_fuel W R); show_c (can_read run_fuel R W);
+                 show_c (mutual_read run_fuel W R); show_c (can_read run_fuel W W);
+                 sexp_of_value dv]
+            | _ =>
+              L [Sym "unwritable";
+                 show_c (can_read run_fuel W R); show_c (can_read run_fuel R W);
+                 show_c (mutual_read run_fuel W R); show_c (can_read run_fuel W W)]
+            end
+          | _, _ => obs_err
+          end
+        | _, _, _, _ => obs_bad
         end
       | _ => obs_bad
       end
